@@ -253,11 +253,13 @@ def g9(ctx: Ctx):
         inner = refs[0].fields.get("_var")
         ctx.need(isinstance(inner, Obj) and inner.cls == "BasicVar", r, "BasicArrayRef._var is not a BasicVar")
         nm = inner.fields.get("_name")
-        parts = nm.parts if isinstance(nm, Tmpl) else None
-        okp = parts is not None and len(parts) == 2 and parts[0] == "arr_" and isinstance(parts[1], StrV) and getattr(parts[1], "name_of", None) is not None or (
-            parts is not None and len(parts) == 2 and parts[0] == "arr_"
-        )
-        ctx.ob(f"{r}:arr_-prefix", bool(okp), "" if okp else f"array identifier is built as {nm!r}, not `arr_` + the variable name: arrays and scalars of one name alias, or references and DIM disagree", file="coco/b09/elements.py", line=inner.line)
+        # exactly one `arr_` prefix in front of the name of the variable of the same kind
+        want_arr = _fold(Lang.from_regex(r"arr_[A-Z][A-Z0-9]?\$" if r == "str_array_ref_exp" else r"arr_[A-Z][A-Z0-9]?"))
+        try:
+            okp, wdiff = _fold(string_lang(I, nm)).equals(want_arr)
+        except NoLang as e:
+            raise AnalysisError("G9", r, f"cannot derive the language of the array identifier {nm!r}: {e}")
+        ctx.ob(f"{r}:arr_-prefix", bool(okp), "" if okp else f"array identifier is built as {nm!r} (e.g. {wdiff!r}), not `arr_` + the variable name: arrays and scalars of one name alias, or references and DIM disagree", file="coco/b09/elements.py", line=inner.line)
         sflag = refs[0].fields.get("_is_str_expr")
         want = r == "str_array_ref_exp"
         oks = isinstance(sflag, Const) and sflag.value is want
@@ -316,7 +318,8 @@ def e8(ctx: Ctx):
                 a = n.args[0]
                 if isinstance(a, ast.Constant) and isinstance(a.value, str):
                     generated.setdefault(a.value, (rel, n.lineno))
-                elif isinstance(a, ast.JoinedStr):
+                elif isinstance(a, ast.JoinedStr) and not (rel.endswith("parser.py") and _func_at(m, n.lineno).split(".")[-1] in ("visit_var", "visit_str_var")):
+                    # (the two callbacks that build the *user's* identifiers are judged by G9, on their languages)
                     pat = ""
                     for v in a.values:
                         pat += re.escape(str(v.value)) if isinstance(v, ast.Constant) else "@"
